@@ -99,9 +99,9 @@ Definition run_case := (N * bool * bool * ctx * path * outcome * outcome)%type.
 Definition run_mis_y (cs : list run_case) : list N :=
   flat_map (fun x : run_case => let '(id, _, file, c, e, impl, _) := x in
     if outcome_eqb_y (if file then y_run_file c else y_run_path c e) impl then [] else [id]) cs.
-(** the reference against G; and the generator's labelling against the side condition of
-    C16_load_partial (programs entered by an import path) *)
+(** the reference against G; and the generator's labelling against the side conditions of
+    C16_load_partial / C16_load_file_partial *)
 Definition run_mis_g (cs : list run_case) : list N :=
   flat_map (fun x : run_case => let '(id, inside, file, c, e, _, ref) := x in
     if outcome_eqb_g (if file then g_run_file c else g_run_path c e) ref
-       && (file || Bool.eqb inside (good_prog c e)) then [] else [id]) cs.
+       && Bool.eqb inside (if file then good_file c else good_prog c e) then [] else [id]) cs.
